@@ -2,6 +2,7 @@ package eval
 
 import (
 	"fmt"
+	"io"
 
 	"fortio.org/log"
 	"grol.io/grol/ast"
@@ -141,5 +142,7 @@ func extendMacroEnv(macro *object.Macro, args []object.Quote) *State {
 		extended.SetNoChecks(param.Value().Literal(), args[paramIdx], true)
 	}
 
-	return &State{env: extended}
+	// No output from expansion: the body's print/log (and the output replay of the functions it calls) is discarded;
+	// a nil writer was a nil pointer dereference.
+	return &State{env: extended, Out: io.Discard, LogOut: io.Discard}
 }
